@@ -60,8 +60,8 @@ def arg_repr(rng: random.Random, gen: str, r: int, c: int, kw: dict) -> dict:
         if gen != "gen_wilson":  # gen_wilson uses the shape as it is given (array arithmetic): arrays only
             choices += ["list", "tuple"]
         out["shape_repr"] = rng.choice(choices)
-    if "start_coord" in kw and rng.random() < 0.3:
-        out["start_repr"] = rng.choice(["int64-buffer", "int8-buffer", "tuple"])
+    if "start_coord" in kw and rng.random() < (0.8 if max(r, c) > 128 else 0.3):
+        out["start_repr"] = rng.choice(["int64-buffer", "int8-buffer", "int8-buffer", "tuple"])
     return out
 
 
@@ -91,6 +91,9 @@ def gen_spec(rng: random.Random, seed: int, max_n: int, constrained_bias: float,
         if rng.random() < 0.5:
             r, c = c, r
         kw = gen_kwargs(rng, gen, r, c, constrained_bias)
+        if gen != "gen_wilson" and rng.random() < 0.5:
+            # an explicit start cell that a narrow integer type can still hold, on a grid that reaches beyond it
+            kw["start_coord"] = [rng.randrange(min(r, 128)), rng.randrange(min(c, 128))]
         spec = {"seed": seed, "gen": gen, "shape": [r, c], "kwargs": kw, "mode": "real" if gen == "gen_wilson" or rng.random() < 0.6 else "owned"}
         spec.update(arg_repr(rng, gen, r, c, kw))
         return spec
